@@ -565,11 +565,15 @@ def directly_assigned(fn, e):
     return out
 
 
+import re as _re
+PURE_PREDICATE = _re.compile(r"^[a-z0-9]+_(is_\w+|cmp(_\w+)?|on_curve|test_\w+)$")
+
+
 def _pure_key(k):
     if not isinstance(k, tuple):
         return True
     if k and k[0] == "c":
-        if not (isinstance(k[1], str) and k[1] in PURE_CALLS):
+        if not (isinstance(k[1], str) and (k[1] in PURE_CALLS or PURE_PREDICATE.match(k[1]))):
             return False
         return all(_pure_key(a) for a in k[2])
     if k and k[0] in ("=", "?stmt", "r?", "..."):
@@ -627,6 +631,29 @@ class _Universe(frozenset):
 UNIVERSE = _Universe()
 INFEASIBLE = object()
 CURRENT = None          # the Facts instance whose edge_gen callback is running (its edge_state is the state before the edge)
+
+
+def derive_atoms(atoms, s):
+    """consequences of branch atoms about a local that holds the value of an expression (z = f(x); if (z) ...;
+    neg = (g(b) == K); if (neg) ...; limit = C; if (n > limit) ...): the same atoms about the expression itself"""
+    out = list(atoms)
+    for a in atoms:
+        if a[0] == "cmp" and isinstance(a[1], tuple) and a[1][0] == "v":
+            for b in s:
+                if b[0] == "rel" and b[1] == a[1] and b[2] == "==":
+                    K = b[3]
+                    out.append(("cmp", K, a[2], a[3]))
+                    # the local holds a comparison: truthiness of the local decides the comparison
+                    if isinstance(K, tuple) and K[0] == "b" and K[1] in NEG and isinstance(K[3], tuple) and K[3][0] == "i":
+                        if entails(a[2], a[3], "!=", 0):
+                            out.append(("cmp", K[2], K[1], K[3][1]))
+                        elif entails(a[2], a[3], "==", 0):
+                            out.append(("cmp", K[2], NEG[K[1]], K[3][1]))
+        elif a[0] == "rel" and isinstance(a[3], tuple) and a[3][0] == "v":
+            for b in s:
+                if b[0] == "cmp" and b[1] == a[3] and b[2] == "==" and isinstance(b[3], int):
+                    out.append(("cmp", a[1], a[2], b[3]))
+    return out
 
 
 class Facts:
@@ -718,6 +745,7 @@ class Facts:
                             for b in s:
                                 if b[0] == "cmp" and b[1] == a[1] and entails(b[2], b[3], NEG[a[2]], a[3]):
                                     return INFEASIBLE
+                    atoms = derive_atoms(atoms, s)
                     if self.edge_gen:
                         self.edge_state = s
                         global CURRENT
